@@ -219,7 +219,28 @@ def Loop.init (data : Bytes) : Loop :=
 /-- `encodings[-1]` -/
 def topEnc (e : List (Option OptVal)) : Option OptVal := (e.getLast?).getD none
 
+/-- the encoding-stack update performed for a container section (lines 252-266):
+for a change / file at the same or a higher level than the previous container,
+pop one entry per closed level; then push the section's own `encoding` option
+or, failing that, the new top of the stack. -/
+def pushEnc (encodings : List (Option OptVal)) (prevLevel : Nat) (sec : SecId)
+    (own : Option OptVal) : List (Option OptVal) :=
+  let encs :=
+    if sec ≠ SecId.main ∧ sec.level ≤ prevLevel
+    then encodings.take (encodings.length - (prevLevel - sec.level + 1))
+    else encodings
+  encs ++ [match own with | some v => some v | none => topEnc encs]
+
 def supportedVersions : List Bytes := [b!"1.0"]
+
+/-- the encoding handed to `_read_content` for a content section: preamble and
+metadata sections use their own option, else the top of the stack (lines 170,
+185-189, 208-211); diff sections use only their own option (lines 228-235) -/
+def contentEncoding (sec : SecId) (opts : Opts) (encodings : List (Option OptVal)) : Option OptVal :=
+  if sec = SecId.fileDiff then opts.get b!"encoding"
+  else match opts.get b!"encoding" with
+    | some v => some v
+    | none => topEnc encodings
 
 /-- one iteration of the `while True` loop: `none` = end of file -/
 def stepSection (env : Env) (cfg : Config) (chunk : Nat) (l : Loop) : M (Option (Record × Loop)) := do
@@ -231,9 +252,7 @@ def stepSection (env : Env) (cfg : Config) (chunk : Nat) (l : Loop) : M (Option 
     let perr : Outcome := .parseError linenum none
     let next := validNext sec
     if contentSections.contains sec then
-      let encoding : Option OptVal := match opts.get b!"encoding" with
-        | some v => some v
-        | none => topEnc l.encodings
+      let encoding : Option OptVal := contentEncoding sec opts l.encodings
       let length : Nat ← match opts.get b!"length" with
         | none => throw perr
         | some (.str _) => throw perr
@@ -255,25 +274,19 @@ def stepSection (env : Env) (cfg : Config) (chunk : Nat) (l : Loop) : M (Option 
         if !j.isObj then throw perr
         pure (some (⟨sec, linenum, opts, .metadata j⟩, { l with st := st', valid := next }))
       else
-        let (got, st') ← readContent env cfg st length (opts.get b!"encoding") none
+        let (got, st') ← readContent env cfg st length encoding none
                             (opts.get b!"line_endings") true
         let c : Content := match got with | .text _ => .diff [] | .bytes b => .diff b
         pure (some (⟨sec, linenum, opts, c⟩, { l with st := st', valid := next }))
     else
-      let encs ← if sec = SecId.main then
-          match opts.get b!"version" with
-          | some (.str v) => if supportedVersions.contains v then pure l.encodings else throw perr
-          | _ => throw perr
-        else
-          -- change or file: pop one entry per closed container level
-          pure (if sec.level ≤ l.prevLevel
-                then l.encodings.take (l.encodings.length - (l.prevLevel - sec.level + 1))
-                else l.encodings)
-      let pushed : Option OptVal := match opts.get b!"encoding" with
-        | some v => some v
-        | none => topEnc encs
+      if sec = SecId.main then
+        match opts.get b!"version" with
+        | some (.str v) => if supportedVersions.contains v then pure () else throw perr
+        | _ => throw perr
       pure (some (⟨sec, linenum, opts, .container⟩,
-                  { st := st, valid := next, encodings := encs ++ [pushed], prevLevel := sec.level }))
+                  { st := st, valid := next,
+                    encodings := pushEnc l.encodings l.prevLevel sec (opts.get b!"encoding"),
+                    prevLevel := sec.level }))
 
 /-- iterate: the records yielded, then why iteration stopped -/
 def readLoop (env : Env) (cfg : Config) (chunk : Nat) : Nat → Loop → List Record × Outcome
